@@ -18,3 +18,84 @@ Theorem roundtrip_per_pid_typed period ops :
   exists L, demux_all (concat (map mout_bytes (snd (mux_run (new_muxer period) ops)))) = map Ok L /\
     forall x, x <> C_PIDPAT -> x <> C_pmtStartPID -> filter (on_x x) L = written_on x (new_muxer period) ops.
 Proof. apply (roundtrip_per_pid typed_desc typed_desc_premises typed_desc_bytes typed_desc_nil typed_desc_size). Qed.
+
+(* ---------------- the hypotheses are satisfiable: the history of Proofs/RoundTripExamples.v with a stream that carries
+   the six descriptors of PsiTypedDesc.ex_typed_loop (five different classes) ---------------- *)
+Require Import Spec.MuxSpec Spec.PesSpec Spec.PacketSpec Proofs.MuxerProofs Proofs.RoundTripPkt Proofs.RoundTripUnit Proofs.RoundTripL1
+  Proofs.RoundTripTables Proofs.RoundTripMux Proofs.RoundTripExamples.
+
+Definition rtt_es : PMTElementaryStream :=
+  {| PMTElementaryStream_ElementaryPID := 257;
+     PMTElementaryStream_ElementaryStreamDescriptors := ex_typed_loop;
+     PMTElementaryStream_StreamType := C_StreamTypeH264Video |}.
+
+Definition rtt_hist : list mop :=
+  [MAdd rtt_es; MSetPCR 257; MWriteData (rt_data 90000 300); MWriteData (rt_data 93600 500); MWriteTables].
+
+Lemma rtt_domain_gen s pts n ctx : es_find 257 (ms_es s) = Some ctx -> ec_es ctx = rtt_es -> 0 <= pts < 2 ^ 33 -> n <> O ->
+  data_in_domain s (rt_data pts n) ctx (rt_h0 pts) (rt_payload n).
+Proof.
+  intros Hf He Hp Hn. constructor.
+  - unfold es_pid. cbn. unfold C_pmtStartPID. lia.
+  - exact I.
+  - exact I.
+  - exact Hf.
+  - eexists. split; [reflexivity|]. split; reflexivity.
+  - split; [destruct n; [congruence|discriminate]|apply rt_payload_ok].
+  - rewrite He.
+    assert (E : filled_header (rt_h0 pts) rtt_es =
+               {| PESHeader_OptionalHeader := Some (rt_opt pts); PESHeader_PacketLength := 0; PESHeader_StreamID := 224 |}) by reflexivity.
+    rewrite E. split; [cbn; lia|]. intros _. exists (rt_opt pts). split; [reflexivity|apply rt_opt_wf; exact Hp].
+Qed.
+
+Lemma rtt_streams_dom s : ms_streams s = [rtt_es] -> streams_dom typed_desc s.
+Proof.
+  intros E. unfold streams_dom. rewrite E. constructor; [|constructor]. split.
+  - unfold stream_in_dom, rtt_es, spid. split; [cbn; unfold C_StreamTypeH264Video; lia|]. split; [cbn; lia|].
+    exists ex_typed_bytes. apply ex_typed_ok.
+  - unfold es_pid, rtt_es, spid. cbn. unfold C_pmtStartPID. lia.
+Qed.
+
+Definition rtt_s1 : mstate := fst (mux_step_part (new_muxer 40) (MAdd rtt_es)).
+Definition rtt_s2 : mstate := fst (mux_step_part rtt_s1 (MSetPCR 257)).
+Definition rtt_s3 : mstate := fst (mux_step_part rtt_s2 rt_o3).
+Definition rtt_s4 : mstate := fst (mux_step_part rtt_s3 rt_o4).
+Definition rtt_s5 : mstate := fst (mux_step_part rtt_s4 MWriteTables).
+
+Lemma rtt_ctx_of s : option_map ec_es (es_find 257 (ms_es s)) = Some rtt_es ->
+  exists ctx, es_find 257 (ms_es s) = Some ctx /\ ec_es ctx = rtt_es.
+Proof. destruct (es_find 257 (ms_es s)) as [ctx|]; [|discriminate]. cbn. intros H. exists ctx. split; [reflexivity|congruence]. Qed.
+
+Lemma rtt_history_ok : history_ok typed_desc (new_muxer 40) rtt_hist.
+Proof.
+  unfold rtt_hist. cbn [history_ok]. fold rtt_s1. fold rtt_s2. fold rt_o3 rt_o4. fold rtt_s3. fold rtt_s4. fold rtt_s5.
+  assert (St : ms_streams rtt_s1 = [rtt_es] /\ ms_streams rtt_s2 = [rtt_es] /\ ms_streams rtt_s3 = [rtt_es] /\
+               ms_streams rtt_s4 = [rtt_es] /\ ms_streams rtt_s5 = [rtt_es]) by (vm_compute; repeat split; reflexivity).
+  destruct St as (S1 & S2 & S3 & S4 & S5).
+  assert (Rs : pa_res (snd (mux_step_part (new_muxer 40) (MAdd rtt_es))) = Ok tt /\
+               pa_res (snd (mux_step_part rtt_s1 (MSetPCR 257))) = Ok tt /\
+               pa_res (snd (mux_step_part rtt_s2 rt_o3)) = Ok tt /\ pa_res (snd (mux_step_part rtt_s3 rt_o4)) = Ok tt /\
+               pa_res (snd (mux_step_part rtt_s4 MWriteTables)) = Ok tt) by (vm_compute; repeat split; reflexivity).
+  destruct Rs as (R1 & R2 & R3 & R4 & R5).
+  destruct (rtt_ctx_of rtt_s2 ltac:(vm_compute; reflexivity)) as (c2 & F2 & E2).
+  destruct (rtt_ctx_of rtt_s3 ltac:(vm_compute; reflexivity)) as (c3 & F3 & E3).
+  split; [split; [rewrite R1; discriminate|split; [apply rtt_streams_dom, S1|exact I]]|].
+  split; [split; [rewrite R2; discriminate|split; [apply rtt_streams_dom, S2|exact I]]|].
+  split; [split; [rewrite R3; discriminate|split; [apply rtt_streams_dom, S3|]]|].
+  { split; [exact I|]. left. split; [exact R3|]. exists c2, (rt_h0 90000), (rt_payload 300).
+    apply rtt_domain_gen; [exact F2|exact E2|lia|discriminate]. }
+  split; [split; [rewrite R4; discriminate|split; [apply rtt_streams_dom, S4|]]|].
+  { split; [exact I|]. left. split; [exact R4|]. exists c3, (rt_h0 93600), (rt_payload 500).
+    apply rtt_domain_gen; [exact F3|exact E3|lia|discriminate]. }
+  split; [split; [rewrite R5; discriminate|split; [apply rtt_streams_dom, S5|exact I]]|exact I].
+Qed.
+
+(* what comes out: PAT, PMT (listing the stream with its six descriptors); the first PES when the second starts; PAT,
+   PMT of the explicit WriteTables; the second PES at end of stream *)
+Lemma rtt_expect_shape :
+  map DemuxerData_PID (expect (new_muxer 40) [] rtt_hist) = [0; 4096; 257; 0; 4096; 257] /\
+  map (fun d => match DemuxerData_PMT d with
+                | Some pmt => map PMTElementaryStream_ElementaryStreamDescriptors (PMTData_ElementaryStreams pmt)
+                | None => []
+                end) (expect (new_muxer 40) [] rtt_hist) = [[]; [ex_typed_loop]; []; []; [ex_typed_loop]; []].
+Proof. vm_compute. split; reflexivity. Qed.
